@@ -1,8 +1,20 @@
 (* C19 — multi-precision helper functions meet their arithmetic specifications.
-   Only statements, each closed by an exact lemma, with Print Assumptions. *)
-From Coq Require Import List NArith ZArith Bool.
-From AV Require Import model.Proto model.Bits model.Lists proofs.BitsProofs.
+   Only statements, each closed by an exact lemma, with Print Assumptions, and non-vacuity
+   examples.  Model: model/Bits.v (internal/bigint), model/Lists.v (internal/bigints,
+   internal/bigvector).  *big.Int = Z, uint = N, []*big.Int = list Z, string = list of bytes.
+   Arguments are values of a functional model, so "arguments unmodified" is not a theorem here:
+   it is checked on the Go code by the harness oracle. *)
+From Coq Require Import String.
+From Coq Require Import List NArith ZArith Bool Sorted Permutation Lia.
+From AV Require Import model.Proto model.Bits model.Lists proofs.BitsProofs proofs.ListsProofs.
+Import ListNotations.
 Open Scope Z_scope.
+
+(* ================================ internal/bigint ================================ *)
+
+Theorem C19_pow2_eq : forall e, pow2 e = 2 ^ Z.of_N e.
+Proof. exact pow2_eq. Qed.
+Print Assumptions C19_pow2_eq.
 
 (* the mask of [l,h) has exactly bits l..h-1 set *)
 Theorem C19_mask_bits : forall l h i, (l <= h)%N -> 0 <= i ->
@@ -22,3 +34,300 @@ Print Assumptions C19_extract_eq.
 
 Example C19_nonvacuous : extract 0xABCD 4 12 = 0xBC /\ mask 4 12 = 0xFF0 /\ ones 8 = 255.
 Proof. vm_compute. repeat split. Qed.
+
+(* IsPow2: true exactly on 1, 2, 4, ... (false on 0 and on negatives) *)
+Theorem C19_is_pow2_iff : forall x, is_pow2 x = true <-> exists e : N, x = 2 ^ Z.of_N e.
+Proof. exact is_pow2_iff. Qed.
+Print Assumptions C19_is_pow2_iff.
+
+Example C19_is_pow2_ex : is_pow2 1024 = true /\ is_pow2 1023 = false /\ is_pow2 0 = false /\ is_pow2 (-4) = false.
+Proof. vm_compute. repeat split. Qed.
+
+(* Pow2UpTo: exactly the powers of two <= x, ascending: 2^0 .. 2^(k-1) where 2^e <= x <-> e < k *)
+Theorem C19_pow2_upto_spec : forall x, exists k : nat,
+  pow2_upto x = map (fun e => 2 ^ Z.of_nat e) (seq 0 k) /\
+  forall e : nat, 2 ^ Z.of_nat e <= x <-> (e < k)%nat.
+Proof. exact pow2_upto_spec. Qed.
+Print Assumptions C19_pow2_upto_spec.
+
+Theorem C19_pow2_upto_In : forall x p,
+  In p (pow2_upto x) <-> (exists e : N, p = 2 ^ Z.of_N e) /\ p <= x.
+Proof. exact pow2_upto_In. Qed.
+Print Assumptions C19_pow2_upto_In.
+
+Theorem C19_pow2_upto_sorted : forall x, StronglySorted Z.lt (pow2_upto x).
+Proof. exact pow2_upto_sorted. Qed.
+Print Assumptions C19_pow2_upto_sorted.
+
+Example C19_pow2_upto_ex : pow2_upto 20 = [1; 2; 4; 8; 16] /\ pow2_upto 16 = [1; 2; 4; 8; 16] /\ pow2_upto 0 = [] /\ pow2_upto (-3) = [].
+Proof. vm_compute. repeat split. Qed.
+
+(* BitsSet, x >= 0: ascending list of exactly the set bit positions; the powers sum to x *)
+Theorem C19_bits_set_spec : forall x, 0 <= x ->
+  StronglySorted N.lt (bits_set x) /\
+  (forall i, In i (bits_set x) <-> Z.testbit x (Z.of_N i) = true) /\
+  fold_right (fun e a => 2 ^ Z.of_N e + a) 0 (bits_set x) = x.
+Proof. exact bits_set_spec. Qed.
+Print Assumptions C19_bits_set_spec.
+
+(* BitsSet, any sign: the two's-complement bits below BitLen(|x|), as big.Int.Bit reports them *)
+Theorem C19_bits_set_In : forall x i,
+  In i (bits_set x) <-> (i < N.size (Z.abs_N x))%N /\ Z.testbit x (Z.of_N i) = true.
+Proof. exact bits_set_In. Qed.
+Print Assumptions C19_bits_set_In.
+
+Example C19_bits_set_ex : 0 <= 0xA5 /\ bits_set 0xA5 = [0; 2; 5; 7]%N.
+Proof. split; [discriminate|reflexivity]. Qed.
+
+Theorem C19_min_max_spec : forall x y, min_max x y = (Z.min x y, Z.max x y).
+Proof. exact min_max_spec. Qed.
+Print Assumptions C19_min_max_spec.
+
+(* Uint64s, x >= 0: terminates (never OutOfFuel); little-endian base-2^64 digits of x, every
+   limb a uint64, no leading (most significant) zero limb *)
+Theorem C19_uint64s_spec : forall x, 0 <= x ->
+  exists ws, uint64s x = Ok ws /\
+             fold_right (fun w a => w + 2 ^ 64 * a) 0 ws = x /\
+             Forall (fun w => 0 <= w < 2 ^ 64) ws /\
+             (ws <> [] -> last ws 0 <> 0).
+Proof. exact uint64s_spec. Qed.
+Print Assumptions C19_uint64s_spec.
+
+(* out of range: for x < 0 the Go loop does not terminate; the model says so for any input *)
+Theorem C19_uint64s_neg_diverges : forall x, x < 0 -> uint64s x = OutOfFuel.
+Proof. exact uint64s_neg. Qed.
+Print Assumptions C19_uint64s_neg_diverges.
+
+Example C19_uint64s_ex : 0 <= 2 ^ 64 + 5 /\ uint64s (2 ^ 64 + 5) = Ok [5; 1] /\ uint64s (2 ^ 64 - 1) = Ok [2 ^ 64 - 1] /\
+  uint64s 0 = Ok [] /\ -1 < 0 /\ uint64s (-1) = OutOfFuel.
+Proof. vm_compute. repeat split; discriminate. Qed.
+
+(* BytesLittleEndian: little-endian base-256 digits of |x|, no most-significant zero byte *)
+Theorem C19_bytes_le_spec : forall x,
+  fold_right (fun b a => b + 256 * a)%N 0%N (bytes_le x) = Z.abs_N x /\
+  Forall (fun b => b < 256)%N (bytes_le x) /\
+  (bytes_le x <> [] -> last (bytes_le x) 0%N <> 0%N).
+Proof. exact bytes_le_spec. Qed.
+Print Assumptions C19_bytes_le_spec.
+
+Example C19_bytes_le_ex : bytes_le 0x010203 = [3; 2; 1]%N /\ bytes_le (-256) = [0; 1]%N /\ bytes_le 0 = [].
+Proof. vm_compute. repeat split. Qed.
+
+(* Hex / Binary: a literal is accepted exactly when, after deleting every '_', it is an optional
+   sign followed by >= 1 digits of the base and nothing else; the value is the signed Horner sum.
+   [wf_literal], [digit_of], [digits_value] are in proofs/BitsProofs.v. *)
+Theorem C19_hex_spec : forall s v, hex s = Some v <->
+  exists sg neg body ds,
+    strip_underscore s = sg ++ body /\ sign_prefix sg neg /\ body <> [] /\
+    Forall2 (fun c d => digitval c = Some d /\ (d < 16)%N) body ds /\
+    v = if neg then - Z.of_N (fold_left (fun a d => a * 16 + d)%N ds 0%N)
+        else Z.of_N (fold_left (fun a d => a * 16 + d)%N ds 0%N).
+Proof. exact hex_spec. Qed.
+Print Assumptions C19_hex_spec.
+
+Theorem C19_binary_spec : forall s v, binary s = Some v <->
+  exists sg neg body ds,
+    strip_underscore s = sg ++ body /\ sign_prefix sg neg /\ body <> [] /\
+    Forall2 (fun c d => digitval c = Some d /\ (d < 2)%N) body ds /\
+    v = if neg then - Z.of_N (fold_left (fun a d => a * 2 + d)%N ds 0%N)
+        else Z.of_N (fold_left (fun a d => a * 2 + d)%N ds 0%N).
+Proof. exact binary_spec. Qed.
+Print Assumptions C19_binary_spec.
+
+(* which characters are digits *)
+Theorem C19_digitval_char : forall c d, digitval c = Some d <->
+  (48 <= c <= 57 /\ d = c - 48)%N \/ (97 <= c <= 122 /\ d = c - 87)%N \/ (65 <= c <= 90 /\ d = c - 55)%N.
+Proof. exact digitval_char. Qed.
+Print Assumptions C19_digitval_char.
+
+(* strip_underscore deletes exactly the underscores *)
+Theorem C19_strip_underscore : forall t, us_inserted (strip_underscore t) t /\ ~ In 95%N (strip_underscore t).
+Proof. exact (fun t => conj (us_inserted_strip t) (strip_no_underscore t)). Qed.
+Print Assumptions C19_strip_underscore.
+
+(* parsing the canonical rendering of n with underscores inserted anywhere gives n *)
+Theorem C19_hex_roundtrip : forall n t, us_inserted (print_hexZ n) t -> hex t = Some n.
+Proof. exact hex_roundtrip. Qed.
+Print Assumptions C19_hex_roundtrip.
+
+Theorem C19_binary_roundtrip : forall n t, us_inserted (print_binZ n) t -> binary t = Some n.
+Proof. exact binary_roundtrip. Qed.
+Print Assumptions C19_binary_roundtrip.
+
+Example C19_hex_roundtrip_ex :
+  us_inserted (print_hexZ 0xdeadbeef) ($"_de_ad__beef_") /\ hex ($"_de_ad__beef_") = Some 0xdeadbeef /\
+  us_inserted (print_hexZ (-0x1f)) ($"-1_f") /\ hex ($"-1_f") = Some (-31) /\
+  us_inserted (print_binZ 10) ($"10_10") /\ binary ($"10_10") = Some 10 /\
+  hex ($"DEAD_beef") = Some 0xdeadbeef /\ hex ($"+1f") = Some 31.
+Proof. vm_compute. repeat split; repeat constructor. Qed.
+
+(* non-digit characters are rejected wherever they stand *)
+Theorem C19_hex_rejects : forall s c, In c s -> c <> 95%N -> c <> 43%N -> c <> 45%N ->
+  ~ (48 <= c <= 57 \/ 97 <= c <= 102 \/ 65 <= c <= 70)%N -> hex s = None.
+Proof. exact hex_rejects. Qed.
+Print Assumptions C19_hex_rejects.
+
+Theorem C19_binary_rejects : forall s c, In c s -> c <> 95%N -> c <> 43%N -> c <> 45%N ->
+  c <> 48%N -> c <> 49%N -> binary s = None.
+Proof. exact binary_rejects. Qed.
+Print Assumptions C19_binary_rejects.
+
+Example C19_rejects_ex : hex ($"12g4") = None /\ hex ($"0x1f") = None /\ hex ($"") = None /\ hex ($"_") = None /\
+  hex ($"-") = None /\ hex ($"1-2") = None /\ hex ($"--1") = None /\ binary ($"102") = None /\ hex ($"1 2") = None.
+Proof. vm_compute. repeat split. Qed.
+
+(* ================================ internal/bigints ================================ *)
+
+(* the two list predicates used below, in standard-library terms *)
+Theorem C19_sorted_def : forall l, sorted l <-> StronglySorted Z.le l.
+Proof. exact sorted_StronglySorted. Qed.
+Print Assumptions C19_sorted_def.
+
+Theorem C19_sorted_distinct_def : forall l, sorted_distinct l <-> StronglySorted Z.lt l.
+Proof. exact sorted_distinct_StronglySorted. Qed.
+Print Assumptions C19_sorted_distinct_def.
+
+(* Sort: the sorted permutation of its input ... *)
+Theorem C19_sort_spec : forall l, StronglySorted Z.le (sort l) /\ Permutation l (sort l).
+Proof. exact sort_spec. Qed.
+Print Assumptions C19_sort_spec.
+
+(* ... and there is only one: whatever sort.Sort does with ties, its result is this list *)
+Theorem C19_sort_unique : forall l l', Permutation l l' -> StronglySorted Z.le l' -> l' = sort l.
+Proof. exact sort_unique. Qed.
+Print Assumptions C19_sort_unique.
+
+Example C19_sort_ex : sort [3; -1; 3; 0; 2] = [-1; 0; 2; 3; 3] /\
+  Permutation [3; -1; 3; 0; 2] [-1; 0; 2; 3; 3] /\ StronglySorted Z.le [-1; 0; 2; 3; 3].
+Proof.
+  split; [reflexivity|]. split; [|apply sorted_StronglySorted, (sort_sorted [3; -1; 3; 0; 2])].
+  exact (sort_perm [3; -1; 3; 0; 2]).
+Qed.
+
+(* Index: -1 when absent, else the position of the first occurrence *)
+Theorem C19_index_spec : forall n xs,
+  (index n xs = -1 /\ ~ In n xs) \/
+  (exists k : nat, index n xs = Z.of_nat k /\ nth_error xs k = Some n /\
+                   forall j, (j < k)%nat -> nth_error xs j <> Some n).
+Proof. exact index_spec. Qed.
+Print Assumptions C19_index_spec.
+
+Theorem C19_contains_iff : forall n xs, contains n xs = true <-> In n xs.
+Proof. exact contains_iff. Qed.
+Print Assumptions C19_contains_iff.
+
+(* ContainsSorted (sort.Search bisection) decides membership on ascending lists *)
+Theorem C19_contains_sorted_iff : forall n xs, sorted xs -> (contains_sorted n xs = true <-> In n xs).
+Proof. exact contains_sorted_iff. Qed.
+Print Assumptions C19_contains_sorted_iff.
+
+Example C19_contains_ex : sorted [1; 3; 3; 7; 9] /\ contains_sorted 7 [1; 3; 3; 7; 9] = true /\
+  contains_sorted 4 [1; 3; 3; 7; 9] = false /\ index 3 [1; 3; 3; 7; 9] = 1 /\ index 4 [1; 3; 3; 7; 9] = -1.
+Proof. split; [apply sorted_StronglySorted; repeat constructor; lia|]. vm_compute. repeat split. Qed.
+
+(* Clone, Concat *)
+Theorem C19_clone_concat : forall xs ys, clone xs = xs /\ concat xs ys = xs ++ ys.
+Proof. exact (fun xs ys => conj (clone_eq xs) (concat_eq xs ys)). Qed.
+Print Assumptions C19_clone_concat.
+
+(* Unique: the first element and every element that differs from its predecessor in the input;
+   no two neighbours of the result are equal; same elements *)
+Theorem C19_unique_spec : forall xs,
+  unique xs = match xs with
+              | [] => []
+              | x :: r => x :: map snd (filter (fun p => negb (snd p =? fst p)) (combine xs r))
+              end /\
+  (forall i a b, nth_error (unique xs) i = Some a -> nth_error (unique xs) (S i) = Some b -> a <> b) /\
+  (forall z, In z (unique xs) <-> In z xs).
+Proof.
+  exact (fun xs => conj (unique_dedup_adjacent xs)
+                        (conj (no_adjacent_dup_nth _ (unique_no_adjacent_dup xs)) (unique_In xs))).
+Qed.
+Print Assumptions C19_unique_spec.
+
+(* on ascending input: strictly ascending, same elements; a strictly ascending list is unchanged *)
+Theorem C19_unique_sorted : forall xs, sorted xs ->
+  sorted_distinct (unique xs) /\ forall z, In z (unique xs) <-> In z xs.
+Proof. exact (fun xs H => conj (unique_sorted xs H) (unique_In xs)). Qed.
+Print Assumptions C19_unique_sorted.
+
+Theorem C19_unique_sorted_distinct_id : forall xs, sorted_distinct xs -> unique xs = xs.
+Proof. exact unique_sorted_distinct_id. Qed.
+Print Assumptions C19_unique_sorted_distinct_id.
+
+Example C19_unique_ex : unique [1; 1; 2; 1; 1; 3; 3] = [1; 2; 1; 3] /\
+  sorted [1; 1; 2; 2; 2; 5] /\ unique [1; 1; 2; 2; 2; 5] = [1; 2; 5] /\ sorted_distinct [1; 2; 5].
+Proof.
+  split; [reflexivity|]. split; [apply sorted_StronglySorted; repeat constructor; lia|].
+  split; [reflexivity|apply sorted_distinct_StronglySorted; repeat constructor; lia].
+Qed.
+
+(* MergeUnique on strictly ascending lists: strictly ascending union *)
+Theorem C19_merge_unique_spec : forall xs ys, sorted_distinct xs -> sorted_distinct ys ->
+  sorted_distinct (merge_unique xs ys) /\
+  forall z, In z (merge_unique xs ys) <-> In z xs \/ In z ys.
+Proof. exact merge_unique_spec. Qed.
+Print Assumptions C19_merge_unique_spec.
+
+Theorem C19_merge_unique_eq : forall xs ys, sorted_distinct xs -> sorted_distinct ys ->
+  merge_unique xs ys = unique (sort (xs ++ ys)).
+Proof. exact merge_unique_eq_unique_sort. Qed.
+Print Assumptions C19_merge_unique_eq.
+
+(* InsertSortedUnique *)
+Theorem C19_insert_spec : forall xs x, sorted_distinct xs ->
+  sorted_distinct (insert_sorted_unique xs x) /\
+  forall z, In z (insert_sorted_unique xs x) <-> z = x \/ In z xs.
+Proof. exact insert_spec. Qed.
+Print Assumptions C19_insert_spec.
+
+Example C19_merge_ex : sorted_distinct [1; 4; 9] /\ sorted_distinct [2; 4; 10; 11] /\
+  merge_unique [1; 4; 9] [2; 4; 10; 11] = [1; 2; 4; 9; 10; 11] /\
+  insert_sorted_unique [1; 4; 9] 5 = [1; 4; 5; 9] /\ insert_sorted_unique [1; 4; 9] 4 = [1; 4; 9] /\
+  insert_sorted_unique [1; 4; 9] 10 = [1; 4; 9; 10] /\ insert_sorted_unique [] 3 = [3].
+Proof.
+  split; [apply sorted_distinct_StronglySorted; repeat constructor; lia|].
+  split; [apply sorted_distinct_StronglySorted; repeat constructor; lia|].
+  vm_compute. repeat split.
+Qed.
+
+(* ================================ internal/bigvector ================================ *)
+
+(* Add: element-wise sum; panics exactly on a length mismatch *)
+Theorem C19_vadd_spec : forall u v, length u = length v ->
+  exists w, vadd u v = Ok w /\ length w = length u /\ forall i, nth i w 0 = nth i u 0 + nth i v 0.
+Proof. exact vadd_spec. Qed.
+Print Assumptions C19_vadd_spec.
+
+Theorem C19_vadd_panic : forall u v, length u <> length v -> vadd u v = Panic ($"lenmismatch").
+Proof. exact vadd_panic. Qed.
+Print Assumptions C19_vadd_panic.
+
+(* Lsh: every element multiplied by 2^s *)
+Theorem C19_vlsh_spec : forall v s, vlsh v s = map (fun x => x * 2 ^ Z.of_N s) v.
+Proof. exact vlsh_spec. Qed.
+Print Assumptions C19_vlsh_spec.
+
+(* NewBasis(n, i): length n, 1 at i and 0 elsewhere *)
+Theorem C19_basis_spec : forall n i,
+  length (basis n i) = n /\
+  forall j, (j < n)%nat -> nth j (basis n i) 0 = if Nat.eqb j i then 1 else 0.
+Proof. exact basis_spec. Qed.
+Print Assumptions C19_basis_spec.
+
+(* New(n): n zeros.  Idx on a basis vector panics exactly outside [0,n) *)
+Theorem C19_vnew_spec : forall n, length (vnew n) = n /\ forall j, nth j (vnew n) 0 = 0.
+Proof. exact vnew_spec. Qed.
+Print Assumptions C19_vnew_spec.
+
+Theorem C19_basis_idx_spec : forall n i j,
+  ((j < n)%nat -> basis_idx n i j = Ok (nth j (basis n i) 0)) /\
+  ((n <= j)%nat -> basis_idx n i j = Panic ($"index")).
+Proof. exact basis_idx_spec. Qed.
+Print Assumptions C19_basis_idx_spec.
+
+Example C19_vector_ex : length [1; 2; 3] = length [10; 20; -3] /\ vadd [1; 2; 3] [10; 20; -3] = Ok [11; 22; 0] /\
+  length [1; 2] <> length [1] /\ vadd [1; 2] [1] = Panic ($"lenmismatch") /\
+  vlsh [1; -3; 0] 4 = [16; -48; 0] /\ basis 4 2 = [0; 0; 1; 0] /\ basis 2 5 = [0; 0] /\
+  vnew 3 = [0; 0; 0] /\ basis_idx 4 2 2 = Ok 1 /\ basis_idx 4 2 4 = Panic ($"index").
+Proof. vm_compute. repeat split; discriminate. Qed.
